@@ -72,10 +72,50 @@ def tree_specs(draw, min_depth=1, max_depth=3, max_shape=6, defaults=(0,), canon
     if auth is None:
         spec["auth"] = True
     elif auth == "any":
-        spec["auth"] = draw(st.booleans())
+        spec["auth"] = not draw(st.booleans())      # (Hypothesis favours False: make authoritative the common case)
     else:
         spec["auth"] = bool(auth)
     return spec
 
 
 routes = st.sampled_from(["ref", "fiber", "uncompressed", "yaml", "deepcopy"])
+
+
+def merge_noise(tree, noise, d):
+    """Union of structures: keep tree's children, add noise-only coordinates."""
+    tmap = {(tuple(c) if isinstance(c, list) else c): ch for c, ch in tree}
+    nmap = {(tuple(c) if isinstance(c, list) else c): ch for c, ch in noise}
+    out = []
+    for c in sorted(set(tmap) | set(nmap)):
+        if c in tmap and c in nmap and d > 1:
+            out.append([c, merge_noise(tmap[c], nmap[c], d - 1)])
+        elif c in tmap:
+            out.append([c, tmap[c]])
+        else:
+            out.append([c, nmap[c]])
+    return out
+
+
+@st.composite
+def content_specs(draw, shape, defaults=(0,), max_points=8, floats=False, auth=None, rank_ids=None,
+                  p_noise=0.6, min_points=0):
+    """TreeSpec built from a drawn content (points -> values) plus merged-in noise (explicit defaults and
+    empty sub-fibers): gives fuller trees than `tree_specs`."""
+    from . import model
+    shape = list(shape)
+    d = len(shape)
+    default = draw(st.sampled_from(list(defaults)))
+    pts = draw(st.dictionaries(st.tuples(*[st.integers(0, s - 1) for s in shape]),
+                               nondefault_values(default, floats),
+                               min_size=min(min_points, int(__import__("math").prod(shape))), max_size=max_points))
+    tree = model.tree_from_content(pts, d)
+    if draw(st.floats(0, 1)) < p_noise:
+        noise = draw(trees(shape, default, leaf=st.just(default), max_elems=2))
+        tree = merge_noise(tree, noise, d)
+    spec = {"rank_ids": list(rank_ids) if rank_ids else RANK_NAMES[:d], "shape": shape, "default": default,
+            "tree": tree, "auth": True}
+    if auth == "any":
+        spec["auth"] = not draw(st.booleans())
+    elif auth is not None:
+        spec["auth"] = bool(auth)
+    return spec
